@@ -45,7 +45,7 @@ Msgs1 == { C08Units[u] \o C08Terms[t] : u \in 1..Len(C08Units), t \in 1..Len(C08
 Msgs2 == { C08Units[u] \o <<59>> \o C08Units[v] \o LF : u \in 1..Len(C08Units), v \in 1..Len(C08Units) }
 InitC08 == \/ \E m \in Msgs1 \cup Msgs2 : Part = 0 /\ sc = Sc(C08Table, C08Scripts, 64, <<m>>, [hdrs |-> <<>>])
            \/ \E u \in 1..Len(C08Units), t \in 1..Len(C08Terms), m2 \in Msgs1 :
-                 /\ u % NParts = Part
+                 /\ MaxUnits >= 2 /\ u % NParts = Part
                  /\ sc = Sc(C08Table, C08Scripts, 64, <<C08Units[u] \o C08Terms[t] \o m2>>, [hdrs |-> <<>>])
 
 Next == UNCHANGED sc
